@@ -221,6 +221,9 @@ type worker struct {
 	started bool
 	// operations completed so far (guarded by sched.mu)
 	completed int
+	// blocked: the worker found a lock taken (guarded by sched.mu); it is not
+	// scheduled again before another worker has moved
+	blocked bool
 }
 
 type sched struct {
@@ -241,6 +244,24 @@ func (s *sched) hook() {
 	<-w.resume
 }
 
+// lockWait is the hook of a worker that found a lock of the clock taken (only
+// a changed lamport.go has locks; the overlay turns them into try-lock loops
+// that come here instead of blocking the cooperative scheduler).
+func (s *sched) lockWait() {
+	s.mu.Lock()
+	w := s.byGoid[goid()]
+	if w != nil {
+		w.blocked = true
+	}
+	s.mu.Unlock()
+	if w == nil {
+		runtime.Gosched()
+		return
+	}
+	w.parked <- struct{}{}
+	<-w.resume
+}
+
 type hist struct {
 	mu  sync.Mutex
 	ops []porcupine.Operation
@@ -254,8 +275,8 @@ type lin struct {
 func runConcurrent(c *c19Case, x *vkit.Ctx) (ops []porcupine.Operation, overlaps int, ok bool) {
 	var clock serf.LamportClock
 	s := &sched{byGoid: map[uint64]*worker{}}
-	serf.VerifYieldHook = s.hook
-	defer func() { serf.VerifYieldHook = nil }()
+	serf.VerifYieldHook, serf.VerifLockWaitHook = s.hook, s.lockWait
+	defer func() { serf.VerifYieldHook, serf.VerifLockWaitHook = nil, nil }()
 	if c.Base > 0 {
 		// bring the shared clock to its starting value (sequentially, by the
 		// contract the sequential part checks) before any worker runs
@@ -321,15 +342,24 @@ func runConcurrent(c *c19Case, x *vkit.Ctx) (ops []porcupine.Operation, overlaps
 	lastCompleted, solo := 0, 0
 	for {
 		var runnable []*worker
+		unfinished := 0
 		s.mu.Lock()
 		for _, w := range s.workers {
 			if !w.done {
-				runnable = append(runnable, w)
+				unfinished++
+				if !w.blocked {
+					runnable = append(runnable, w)
+				}
 			}
 		}
 		s.mu.Unlock()
-		if len(runnable) == 0 {
+		if unfinished == 0 {
 			break
+		}
+		if len(runnable) == 0 {
+			// everybody who is left waits for a lock that nobody is going to release
+			x.Violationf("op-never-completes-undisturbed", "all %d unfinished workers wait for a lock of the clock", unfinished)
+			return nil, 0, false
 		}
 		d, burst := 0, 1
 		if di < len(c.Decisions) {
@@ -368,6 +398,23 @@ func runConcurrent(c *c19Case, x *vkit.Ctx) (ops []porcupine.Operation, overlaps
 			case <-time.After(20 * time.Second):
 				x.Inconclusive("scheduler-timeout")
 				return nil, 0, false
+			}
+			// this worker moved: whoever waited for a lock may try again; if it
+			// is now waiting itself, its burst ends here and the retry is not
+			// counted as a step of its own
+			s.mu.Lock()
+			nowBlocked := w.blocked
+			if !nowBlocked {
+				for _, o := range s.workers {
+					if o != w {
+						o.blocked = false
+					}
+				}
+			}
+			s.mu.Unlock()
+			if nowBlocked {
+				solo--
+				break
 			}
 		}
 	}
